@@ -448,7 +448,8 @@ func runHeldReaders(r *Run, c05Only bool) {
 // scC08Race: bursts of truly concurrent execution under the race detector.
 func scC08Race(r *Run) {
 	T := r.T
-	g := &muxGen{variants: allVariants, minCalls: 40, maxCalls: 200, paramChanges: true, fastRotation: true, negativeStart: true}
+	g := &muxGen{variants: allVariants, minCalls: 40, maxCalls: 200, paramChanges: true, fastRotation: true, negativeStart: true,
+		paramChangeDen: Pick(T, 6, 2, 1), forceVideo: T.Chance(1, 2)}
 	cfg := genMuxCfg(r, g)
 	if T.Chance(1, 2) {
 		cfg.disk = true
@@ -496,7 +497,7 @@ func scC08Race(r *Run) {
 				s := c.streams[T.Intn(len(c.streams))]
 				pl := c.latest[s]
 				var cand []string
-				cand = append(cand, "index.m3u8", s, s, "nothing.mp4")
+				cand = append(cand, "index.m3u8", "index.m3u8", "index.m3u8", s, s, "nothing.mp4")
 				if pl != nil {
 					if pl.HasMap {
 						cand = append(cand, pl.MapURI)
